@@ -584,3 +584,48 @@ def invert_hazard_obligations(prog, rule, rels):
     if not lints.invert_of_python_bool(ex, Resolver(ex)):
         raise AnalysisError("invert-of-bool lint lost its positive example")
     return out
+
+
+def picklable_state_obligations(prog, rule, classes):
+    """One obligation per class whose instances are sent between processes (a chain and everything it holds is pickled on its way to
+    a pool worker and back, and through the tempering pipes): no instance attribute is bound to something pickle cannot
+    re-create by name - a lambda, a function defined inside a method, or a name-mangled private function / method
+    (`self.__f`: pickle looks `__f` up on the class, where it is called `_Class__f`)."""
+    from ..model import qual
+    out = []
+    for ci in classes:
+        hits = []
+        for mname, fn in ci.methods.items():
+            if not fn.args.args:
+                continue
+            sn = fn.args.args[0].arg
+            local_defs = {n.name for n in ast.walk(fn) if isinstance(n, (ast.FunctionDef, ast.AsyncFunctionDef)) and n is not fn}
+            local_lambdas = {st.targets[0].id for st in ast.walk(fn) if isinstance(st, ast.Assign) and isinstance(st.targets[0], ast.Name)
+                             and isinstance(st.value, ast.Lambda)}
+            for st in ast.walk(fn):
+                if not isinstance(st, ast.Assign):
+                    continue
+                for t in st.targets:
+                    if not (isinstance(t, ast.Attribute) and isinstance(t.value, ast.Name) and t.value.id == sn):
+                        continue
+                    vals = [st.value.body, st.value.orelse] if isinstance(st.value, ast.IfExp) else [st.value]
+                    for v in vals:
+                        why = None
+                        if isinstance(v, ast.Lambda):
+                            why = "a lambda"
+                        elif isinstance(v, ast.Name) and v.id in local_defs | local_lambdas:
+                            why = f"the local function `{v.id}`"
+                        elif isinstance(v, ast.Attribute) and isinstance(v.value, ast.Name) and v.value.id in (sn, ci.name, "cls") \
+                                and v.attr.startswith("__") and not v.attr.endswith("__") \
+                                and (v.attr in ci.methods or any(v.attr in c.methods for c in prog.mro(ci))):
+                            why = f"the name-mangled private method `{v.attr}` (pickled by the name `{v.attr}`, which the class knows as `_{ci.name}{v.attr}`)"
+                        if why:
+                            hits.append((st.lineno, f"{sn}.{t.attr}", why, mname))
+        msg = ""
+        if hits:
+            line, attr, why, mname = hits[0]
+            msg = (f"{ci.name}.{mname} binds `{attr}` to {why}: an object holding it cannot be pickled, so a chain configured this way cannot be "
+                   f"sent to a pool worker or handed back through a pipe" + (f" (+{len(hits) - 1} more attributes)" if len(hits) > 1 else ""))
+        out.append(struct_ob(rule, f"{ci.module.name}.{ci.name}", not hits, msg, ci.module.relpath, hits[0][0] if hits else ci.node.lineno,
+                             slots={"methods_scanned": len(ci.methods), "hits": len(hits)}))
+    return out
